@@ -87,3 +87,32 @@ def oracle(c, outs):
         sig = outs[0]
     e = check_sig(p, sk, m, sig)
     return None if e is None else "%s/%s emitted a signature violating a rejection bound: %s" % (c.fn, c.copy, e)
+
+
+def extra(rep, cov, tier, rng):
+    """Volume probe in the harness: thousands of signatures per set (deterministic and randomized, reused buffer) decoded
+    with an independent structural decoder: ||z|| < gamma1-beta, canonical hint section, weight <= omega."""
+    from concurrent.futures import ThreadPoolExecutor
+    from dlib import crate
+    per = 12000 if tier == "quick" else 300000
+    shards = 4 if tier == "quick" else 8
+    calls = []
+    for cp in ALL:
+        for sh in range(shards):
+            calls.append(("selfcheck", cp, [rng.randrange(1 << 60), per // shards, 400, 0]))
+        calls.append(("selfcheck", cp, [rng.randrange(1 << 60), per // 8, 400, 1]))
+    with ThreadPoolExecutor(max_workers=16) as ex:
+        res = list(ex.map(lambda c: crate([c])[0], calls))
+    total = 0
+    for cl, r in zip(calls, res):
+        total += cl[2][1]
+        case = {"fn": "selfcheck", "copy": cl[1], "args": [str(a) for a in cl[2]]}
+        if r is None:
+            rep.violation("signing panicked during the volume probe (%s) — e.g. more hints than the signature has room for" % cl[1], {"cases": [case]}, True)
+        elif r[4] != 0:
+            rep.violation("%d of %d emitted signatures (%s) violate a bound: %s; first: key seed %s message %s" %
+                          (r[4], cl[2][1], cl[1], "||z|| >= gamma1-beta" if r[5] == 1 else "hint section not canonical / more than omega hints",
+                           r[6].hex(), r[7].hex()), {"cases": [case], "first_failure": {"key_seed": r[6].hex(), "message": r[7].hex()}}, True)
+    cov["volume_signatures_structurally_checked"] = total
+    cov["evaluations"] = cov.get("evaluations", 0) + total
+    cov["distinct_nontrivial"] = cov.get("distinct_nontrivial", 0) + total
